@@ -137,6 +137,8 @@ let reg_index r =
   let rec go l i = match l with [] -> -1 | x :: t -> if x = r then i else go t (i + 1) in
   go all_regs 0
 
+let policy_must = ref false
+
 let parse_regs_x86 (k : toks) : regs =
   let i = nx k in
   let arr = Array.make 16 N0 in
@@ -505,6 +507,8 @@ let run_x86 (lines : string list) : unit =
             let bs = nx k in
             skip_to k "A";
             let d = match parse_abs k with AbsNone -> MNone | AbsDwarf (p, fs) -> MDwarf (p, fs) | AbsPe pe -> MPe pe in
+            (* MustNotAllocateDuringUnwind: expressions evaluated on the fixed-size stack (Policy.v) *)
+            let d = if !policy_must then cap_mdata d else d in
             Hashtbl.replace mods id { mstart = st; mend = en; base_avma = ba; base_svma = bs; mdat = d };
             "ok"
           | "new" ->
@@ -657,6 +661,7 @@ let run_a64 (lines : string list) : unit =
             let bs = nx k in
             skip_to k "A";
             let d = match parse_abs k with AbsNone -> AMNone | AbsDwarf (p, fs) -> AMDwarf (p, fs) | AbsPe _ -> AMPe in
+            let d = if !policy_must then cap_amdata d else d in
             Hashtbl.replace mods id { mstart = st; mend = en; base_avma = ba; base_svma = bs; mdat = d };
             "ok"
           | "new" ->
@@ -800,6 +805,8 @@ let () =
             match String.index_opt kv '=' with
             | Some p when String.sub kv 0 p = "arch" ->
               arch := String.sub kv (p + 1) (String.length kv - p - 1)
+            | Some p when String.sub kv 0 p = "policy" ->
+              policy_must := (String.sub kv (p + 1) (String.length kv - p - 1) = "must")
             | _ -> ())
           k.t)
     lines;
